@@ -391,6 +391,50 @@ func TestVerifC04(t *testing.T) {
 			}
 			run.Count("port_range_iterations_checked", 1)
 		}
+		// several ranges in one list: every range is its own permutation - ranges of equal size back to back, a
+		// single port between two ranges, the same range twice
+		for _, lst := range [][][2]uint16{{{1, 10}, {21, 30}}, {{1, 10}, {21, 30}, {41, 50}}, {{5, 5}, {7, 7}, {9, 9}}, {{100, 199}, {300, 399}, {1, 1}, {500, 599}}, {{80, 81}, {80, 81}}, {{1, 1024}, {2001, 3024}}} {
+			var prs []*PortRange
+			want := map[uint16]int{}
+			for _, r := range lst {
+				prs = append(prs, &PortRange{StartPort: r[0], EndPort: r[1]})
+				for p := int(r[0]); p <= int(r[1]); p++ {
+					want[uint16(p)]++
+				}
+			}
+			ctx, cancel := context.WithTimeout(context.Background(), 60*time.Second)
+			ch, err := NewPortGenerator().Ports(ctx, &Range{Ports: prs})
+			got := map[uint16]int{}
+			bad := ""
+			if err != nil {
+				bad = "generator refused the list: " + err.Error()
+			} else {
+				for pg := range ch {
+					port, err := pg.GetPort()
+					if err != nil {
+						bad = "error instead of a port: " + err.Error()
+						continue
+					}
+					got[port]++
+				}
+			}
+			cancel()
+			for p, c := range want {
+				if bad == "" && got[p] != c {
+					bad = fmt.Sprintf("port %d produced %d times, %d expected (%d of %d ports in all)", p, got[p], c, len(got), len(want))
+				}
+			}
+			for p := range got {
+				if bad == "" && want[p] == 0 {
+					bad = fmt.Sprintf("port %d is in no range of the list", p)
+				}
+			}
+			run.Eval(1)
+			if bad != "" {
+				run.Violation("port-range-iteration:list", fmt.Sprintf("port list %v: %s", lst, bad), lst)
+			}
+			run.Count("port_lists_checked", 1)
+		}
 		for _, sn := range []string{"10.0.0.0/16", "10.2.0.0/15", "10.0.0.7/32", "255.255.255.254/31", "0.0.0.0/17"} {
 			_, ipnet, _ := net.ParseCIDR(sn)
 			ones, _ := ipnet.Mask.Size()
